@@ -661,6 +661,10 @@ func genReq(t *rapid.T) Req {
 				r.Body = r.Body[:len(r.Body)/2]
 			} else if rapid.IntRange(0, 15).Draw(t, "bomb") == 0 {
 				r.Body = gzBomb // 32 MiB of zeros in ~32 KiB: decoding must not cost memory out of proportion to what was sent
+			} else if rapid.IntRange(0, 7).Draw(t, "zstdwin") == 0 {
+				// a ten byte zstd frame that announces a 128 MiB window and carries one raw one-byte block
+				r.Headers[len(r.Headers)-1][1] = "zstd"
+				r.Body = []byte{0x28, 0xB5, 0x2F, 0xFD, 0x00, 0x88, 0x09, 0x00, 0x00, 0x41}
 			}
 		case 5:
 			r.Headers = append(r.Headers, [2]string{"Content-Type", "application/cbor"})
